@@ -145,7 +145,10 @@ fn test_case(c: &Case, sh: &Shared) -> Result<CaseInfo, Fail> {
             Ok(CaseInfo { extra_runs: *runs as u64 - 1, classes: vec![format!("balance:n={n}")], ..Default::default() })
         }
         Case::Linear { seed } => match crate::checks::c06lin::test_once(*seed) {
-            Ok(d) => Ok(CaseInfo { nontrivial: Some(hash_of(&(*seed, 77u8))), classes: vec!["linear-leakage".into()], sample: Some(json!({"linear_leakage_test": d})), ..Default::default() }),
+            Ok(d) => {
+                let stale = d.starts_with("model of the public coins is stale");
+                Ok(CaseInfo { nontrivial: (!stale).then(|| hash_of(&(*seed, 77u8))), classes: vec![if stale { "linear-leakage:not-judged".into() } else { "linear-leakage".into() }], sample: Some(json!({"linear_leakage_test": d})), undecided: stale, ..Default::default() })
+            }
             Err(f) => Err(f),
         },
         Case::Canary { n, seed } => {
